@@ -333,6 +333,19 @@ def check_tempo(scn, res):
                             'puts it in [%r, %r]'
                             % (scn['tempo0'], scn['tempo1'], scn['beat'],
                                a['logical'], lo, hi), a['logical'], [lo, hi]))
+            # on time under the NEW map: when the change moves the deadline at least 0.4 s
+            # earlier, the task must not be left sleeping towards the old one (half of the gap
+            # is allowed as wake-up latency; failures are re-run in fresh processes)
+            stale = info.get('stale_secs')
+            if stale is not None and stale - hi >= 0.4:
+                late_by = a['phys'] - res['init_time'] - hi
+                if late_by > (stale - hi) / 2:
+                    out.append(('tempo-deadline',
+                                'tempo %r -> %r while sleeping: task for beat %r is due at %.3f s '
+                                'under the new map (%.3f s under the old one) and is awakened '
+                                '%.3f s after that' % (scn['tempo0'], scn['tempo1'], scn['beat'],
+                                                       hi, stale, late_by),
+                                round(late_by, 3), '< %.3f' % ((stale - hi) / 2)))
     return out
 
 
